@@ -205,6 +205,18 @@ add("C14", "CH+RX (+ concrete diff)",
     "Executing the samples against a server and the metadata's parameter/result types are outside the claim; the "
     "docstring comparison ignores blank lines (the formatter may drop them inside string literals, C20).")
 
+add("C10", "z3 strings + site inventory + multi-seed replay",
+    "order-adversary formulation: AST/Jinja inventory of every set iteration, z3 (strings) key-injectivity obligation per "
+    "sorted site, sat models replayed as requests under several PYTHONHASHSEEDs in separate processes",
+    "Every place where set iteration order can reach the output is classified on each run; a sorted site is discharged when "
+    "z3 shows that no two distinguishable elements share a sort key (then it is order-insensitive for EVERY order), a raw "
+    "site needs a reviewed justification whose side condition is re-checked, anything else is inconclusive; a battery of "
+    "requests (equal short resource names, five sub-packages, retry codes, ...) must be byte-identical across hash seeds.",
+    "DESIGN.md section 5 C10",
+    "The classification is syntactic (AST of gapic/**/*.py, line-based for templates); 3 seeds quick / 8 thorough in the "
+    "replay; non-set sources of nondeterminism (time, cwd, environment) are covered by the replay only.",
+    category="other")
+
 PENDING = {}
 
 
